@@ -252,7 +252,7 @@ func init() {
 	// the same stand-ins that decide it for C11/C12/C14
 	// cached answers must be the answers of an uncached client: the shared-client
 	// scenarios of the all-pairs stand-in (different plans, different lengths on one client)
-	for _, pid := range []string{"C06", "C08", "C04", "C05", "C12"} {
+	for _, pid := range []string{"C06", "C08", "C04", "C05", "C12", "C13"} {
 		pid := pid
 		boundedChecks[pid] = append(boundedChecks[pid], func(w *World, tier string, seed int, verif string) []boundedResult {
 			return []boundedResult{runHarness(w, verif, tier, seed, harnessSpec{
